@@ -2,6 +2,7 @@
 # usage: seedrun.sh <seed dir> <check id> [tier]  -- applies the seeded patch in a scratch worktree and runs one check against it
 # prints: <seed> <check> exit=<rc> + VIOLATION lines; evidence/replays go to /tmp/seedout/<seed>/
 set -u
+HERE=$(cd "$(dirname "$0")/.." && pwd)
 SEED=$(cd "$1" && pwd); ID=$2; TIER=${3:-quick}
 name=$(basename "$SEED")
 WT=/tmp/wt/seedrun-$name-$ID
@@ -10,9 +11,9 @@ mkdir -p "$OUT"
 git -C /repo worktree remove --force "$WT" >/dev/null 2>&1
 git -C /repo worktree add -q --detach "$WT" HEAD || exit 2
 (cd "$WT" && (git apply "$SEED/patch.diff" || git apply --3way "$SEED/patch.diff")) || { echo "$name $ID patch-failed"; exit 2; }
-VERIF_REPO=$WT VERIF_OUT=$OUT VERIF_PAR=${VERIF_PAR:-8} /verif/check "$ID" --tier "$TIER" > "$OUT/$ID.out" 2> "$OUT/$ID.err"
+VERIF_REPO=$WT VERIF_OUT=$OUT VERIF_PAR=${VERIF_PAR:-8} $HERE/check "$ID" --tier "$TIER" > "$OUT/$ID.out" 2> "$OUT/$ID.err"
 rc=$?
 echo "$name $ID exit=$rc $(grep -c '^VIOLATION' "$OUT/$ID.out") violation(s): $(grep -h 'violation C' "$OUT/$ID.err" | head -3 | cut -c1-200 | tr '\n' '|')"
 git -C /repo worktree remove --force "$WT"
-rm -rf "/verif/scratch/$(echo "$WT" | tr '/' '_')"
+rm -rf "$HERE/scratch/$(echo "$WT" | tr '/' '_')"
 exit $rc
